@@ -74,13 +74,15 @@ Theorem copy_spec (w w' : world) i attr :
   wf w -> step O w (OCopy i attr) = Some w' ->
   exists so co, get_mesh w i = Some so /\ wobjs w' = wobjs w ++ [co]
     /\ coords O (mheap (wmem w')) co = coords O (mheap (wmem w)) so
-    /\ oedges co = oedges so /\ ofaces co = ofaces so /\ occells co = occells so /\ okind co = okind so
+    /\ oedges co = oedges so /\ ofaces co = ofaces so /\ occells co = occells so /\ ocorn co = ocorn so
+    /\ okind co = okind so
     /\ NoDup (ocells co) /\ (forall c, In c (ocells co) -> ~ allocated (wmem w) c)
     /\ frame O (wmem w) (wmem w').
 Proof.
   intros Hwf Hs. cbn [step] in Hs. destruct (get_mesh w i) as [so|] eqn:Em; [|discriminate].
   rewrite copy_is_deep in Hs. destruct (take O Copy (wmem w) (ocells so)) as [m1 cs] eqn:E.
   inversion Hs; subst; clear Hs. apply take_copy_fresh in E as (Hfb & Hf & Hmap).
+  rewrite copy_plumbing_is_identity.
   exists so, (with_cells so cs). repeat split; auto; try apply Hf; try apply Hfb.
   intros c Hc. eapply fresh_block_not_allocated; eauto.
 Qed.
@@ -91,7 +93,7 @@ Theorem merge_spec (w w' : world) ms :
   exists ins mo, get_meshes w ms = Some ins /\ wobjs w' = wobjs w ++ [mo]
     /\ coords O (mheap (wmem w')) mo = flat_map (coords O (mheap (wmem w))) ins
     /\ oedges mo = shifted sel_edges 0 ins /\ ofaces mo = shifted sel_faces 0 ins /\ occells mo = shifted sel_cells 0 ins
-    /\ okind mo = max_dim ins
+    /\ ocorn mo = merge_corn 0 0 0 ins /\ okind mo = max_dim ins
     /\ NoDup (ocells mo) /\ (forall c, In c (ocells mo) -> ~ allocated (wmem w) c)
     /\ frame O (wmem w) (wmem w').
 Proof.
@@ -108,8 +110,8 @@ Proof.
 Qed.
 
 (* ---- from_arrays *)
-Theorem from_arrays_spec (w w' : world) a e f c k :
-  wf w -> step O w (OFromArrays a e f c k) = Some w' ->
+Theorem from_arrays_spec (w w' : world) a e f c cn k :
+  wf w -> step O w (OFromArrays a e f c cn k) = Some w' ->
   exists ao mo, nth_error (wobjs w) a = Some ao /\ wobjs w' = wobjs w ++ [mo]
     /\ coords O (mheap (wmem w')) mo = coords O (mheap (wmem w)) ao
     /\ NoDup (ocells mo) /\ (forall c, In c (ocells mo) -> ~ allocated (wmem w) c)
@@ -119,19 +121,19 @@ Proof.
   destruct (is_mesh ao); [discriminate|]. rewrite from_arrays_copies in Hs.
   destruct (take O Copy (wmem w) (ocells ao)) as [m1 cs] eqn:E. inversion Hs; subst; clear Hs.
   apply take_copy_fresh in E as (Hfb & Hf & Hmap).
-  exists ao, (mkobj cs e f c k). repeat split; auto; try apply Hf; try apply Hfb.
+  exists ao, (mkobj cs e f c cn k). repeat split; auto; try apply Hf; try apply Hfb.
   intros x Hx. eapply fresh_block_not_allocated; eauto.
 Qed.
 
 (* ---- ring *)
-Theorem ring_spec (w w' : world) N nc open vs e f :
-  step O w (ORing N nc open vs e f) = Some w' ->
+Theorem ring_spec (w w' : world) N nc open vs e f cn :
+  step O w (ORing N nc open vs e f cn) = Some w' ->
   exists ro, wobjs w' = wobjs w ++ [ro] /\ coords O (mheap (wmem w')) ro = vs
     /\ NoDup (ocells ro) /\ (forall c, In c (ocells ro) -> ~ allocated (wmem w) c) /\ frame O (wmem w) (wmem w').
 Proof.
   intros Hs. cbn [step] in Hs. destruct (ring_cells O (wmem w) N nc open vs) as [[m1 cs]|] eqn:E; [|discriminate].
   inversion Hs; subst; clear Hs. apply ring_cells_spec in E as (A & B & C & D & F).
-  exists (mkobj cs e f [] 2). repeat split; auto; apply C.
+  exists (mkobj cs e f [] cn 2). repeat split; auto; apply C.
 Qed.
 
 (* ---- histories that never target object j leave its list of cells alone *)
@@ -151,6 +153,20 @@ Proof.
 Qed.
 
 Definition obj_coords (w : world) (k : nat) : list vec := map (rd (mheap (wmem w))) (obj_cells w k).
+
+(* one transform / edit through object i leaves object j alone as soon as the two share no buffer *)
+Theorem disjoint_objects_do_not_interfere (w w' : world) o i j :
+  wf w -> op_ok w o -> step O w o = Some w' -> target o = Some i -> j <> i -> (j < length (wobjs w))%nat ->
+  (forall c, In c (obj_cells w j) -> ~ In c (obj_cells w i)) ->
+  obj_coords w' j = obj_coords w j.
+Proof.
+  intros Hwf Hok Hs Ht Hj Hlen Hdis. destruct (step_effect O _ _ _ Hwf Hok Hs) as (_ & Hfr & _ & Hsame).
+  unfold obj_coords. rewrite Hsame; auto; [|rewrite Ht; congruence].
+  apply map_ext_in. intros c Hc. apply Hfr.
+  - unfold obj_cells in Hc. destruct (nth_error (wobjs w) j) as [oj|] eqn:E; [|destruct Hc].
+    destruct (wf_nth _ _ _ Hwf E) as [_ H]. rewrite Forall_forall in H. auto.
+  - intros i' Hi'. rewrite Ht in Hi'. inversion Hi'; subst. auto.
+Qed.
 
 (* A freshly made object (copy, merge result, from_arrays mesh: anything whose cells were not allocated before)
    and an older object are isolated from one another under every later history:
